@@ -540,3 +540,45 @@ KEEP += [
      "            let mut track = first_track;\n            track.extend(second_track);\n            Ok(track)\n",
      ['C12'], 'the two half tracks joined with extend'),
 ]
+
+# ---- eleventh batch: RRT glue
+KEEP += [
+    ('K134', R, "        data.and_then(|vectors| {\n            vectors\n                .into_iter()\n                .map(|vec| {\n                    if vec.len() == 6 {\n                        // Convert Vec<f64> to [f64; 6] if length is 6\n                        Ok([vec[0], vec[1], vec[2], vec[3], vec[4], vec[5]])\n                    } else {\n                        Err(\"One of the inner vectors does not have 6 elements.\".to_string())\n                    }\n                })\n                .collect()\n        })\n",
+     "        let vectors = data?;\n        let mut out = Vec::with_capacity(vectors.len());\n        for vec in vectors {\n            let joints: Joints = vec\n                .as_slice()\n                .try_into()\n                .map_err(|_| \"One of the inner vectors does not have 6 elements.\".to_string())?;\n            out.push(joints);\n        }\n        Ok(out)\n",
+     ['C13', 'C12'], 'path conversion by a loop with try_into and the ? operator'),
+    ('K135', R, "        let path = dual_rrt_connect(\n            start,\n            goal,\n            collision_free,\n            random_joint_angles,\n            self.step_size_joint_space, // Step size in joint space\n            self.max_try,               // Max iterations\n            &stop,\n        );\n\n        path\n",
+     "        dual_rrt_connect(\n            start,\n            goal,\n            collision_free,\n            random_joint_angles,\n            self.step_size_joint_space,\n            self.max_try,\n            stop,\n        )\n",
+     ['C13'], 'planner call returned directly, stop passed without the extra borrow'),
+    ('K136', R, "        let collision_free = |joint_angles: &[f64]| -> bool {\n            let joints = &<Joints>::try_from(joint_angles).expect(\"Cannot convert vector to array\");\n            !kinematics.collides(joints)\n        };\n",
+     "        let collision_free = |joint_angles: &[f64]| -> bool {\n            let joints: Joints = joint_angles.try_into().expect(\"Cannot convert vector to array\");\n            if kinematics.collides(&joints) {\n                return false;\n            }\n            true\n        };\n",
+     ['C13'], 'free-space predicate with try_into and an early return'),
+]
+
+# ---- twelfth batch: the pair decision of the collision check
+KEEP += [
+    ('K137', CO, "        let collides = if r_min <= NEVER_COLLIDES {\n            false\n        } else if r_min == TOUCH_ONLY {\n            parry3d::query::intersection_test(\n                self.transform_i,\n                self.shape_i,\n                self.transform_j,\n                self.shape_j,\n            )\n            .expect(SUPPORTED)\n        } else {",
+     "        if r_min <= NEVER_COLLIDES {\n            return None;\n        }\n        let collides = if r_min == TOUCH_ONLY {\n            parry3d::query::intersection_test(\n                self.transform_i,\n                self.shape_i,\n                self.transform_j,\n                self.shape_j,\n            )\n            .expect(SUPPORTED)\n        } else {",
+     ['C10', 'C11', 'C14'], 'never-colliding pairs leave the pair decision by an early return'),
+    ('K138', CO, "            let (sm_shape, sm_transform, bg_shape, bg_transform) = \n                if self.shape_i.vertices().len() < self.shape_j.vertices().len() {\n                (self.shape_i, self.transform_i, self.shape_j, self.transform_j)\n            } else {\n                (self.shape_j, self.transform_j, self.shape_i, self.transform_i)\n            };            \n",
+     "            let i_is_smaller = self.shape_i.vertices().len() < self.shape_j.vertices().len();\n            let (sm_shape, sm_transform) = if i_is_smaller {\n                (self.shape_i, self.transform_i)\n            } else {\n                (self.shape_j, self.transform_j)\n            };\n            let (bg_shape, bg_transform) = if i_is_smaller {\n                (self.shape_j, self.transform_j)\n            } else {\n                (self.shape_i, self.transform_i)\n            };\n",
+     ['C10'], 'smaller and bigger body chosen by two separate if-expressions on one test'),
+    ('K139', CO, "        if collides {\n            Some((self.i.min(self.j), self.i.max(self.j)))\n        } else {\n            None\n        }\n    }\n}\n\n/// Struct representing the geometry",
+     "        if !collides {\n            return None;\n        }\n        if self.i <= self.j {\n            Some((self.i, self.j))\n        } else {\n            Some((self.j, self.i))\n        }\n    }\n}\n\n/// Struct representing the geometry",
+     ['C10'], 'reported pair ordered by a comparison instead of min/max'),
+    ('K140', CO, "            let sm_box_transform = sm_transform * Translation3::from(sm_aabb.center().coords);\n",
+     "            let centre = sm_aabb.center();\n            let sm_box_transform = sm_transform * Translation3::new(centre.x, centre.y, centre.z);\n",
+     ['C10'], 'box centre passed by components'),
+]
+
+# ---- thirteenth batch: Jacobian
+KEEP += [
+    ('K141', J, "    let jacobian_columns: Vec<_> = (0..6).into_iter().map(|i| {\n        let mut perturbed_qs = *joints;\n        perturbed_qs[i] += epsilon;\n        let perturbed_pose = robot.forward(&perturbed_qs);\n        let perturbed_position = perturbed_pose.translation.vector;\n        let perturbed_orientation = perturbed_pose.rotation;\n\n        let delta_position = (perturbed_position - current_position) / epsilon;\n        let delta_orientation = (perturbed_orientation * current_orientation.inverse()).scaled_axis() / epsilon;\n\n        (delta_position, delta_orientation)\n    }).collect();\n\n    for (i, (delta_position, delta_orientation)) in jacobian_columns.into_iter().enumerate() {\n        jacobian.fixed_view_mut::<3, 1>(0, i).copy_from(&delta_position);\n        jacobian.fixed_view_mut::<3, 1>(3, i).copy_from(&delta_orientation);\n    }\n",
+     "    for i in 0..6 {\n        let mut perturbed_qs = *joints;\n        perturbed_qs[i] += epsilon;\n        let perturbed_pose = robot.forward(&perturbed_qs);\n        let perturbed_position = perturbed_pose.translation.vector;\n        let perturbed_orientation = perturbed_pose.rotation;\n\n        let delta_position = (perturbed_position - current_position) / epsilon;\n        let delta_orientation = (perturbed_orientation * current_orientation.inverse()).scaled_axis() / epsilon;\n\n        jacobian.fixed_view_mut::<3, 1>(0, i).copy_from(&delta_position);\n        jacobian.fixed_view_mut::<3, 1>(3, i).copy_from(&delta_orientation);\n    }\n",
+     ['C15'], 'columns computed and stored in one loop'),
+    ('K142', J, "        let joint_torques = self.matrix.transpose() * F;\n        vector6_to_joints(joint_torques)\n",
+     "        vector6_to_joints(self.matrix.tr_mul(F))\n",
+     ['C15'], 'J^T F through tr_mul'),
+    ('K143', J, "        let linear_force = desired_force_isometry.translation.vector;\n        let angular_torgue = desired_force_isometry.rotation.scaled_axis();\n\n        // Combine into a single 6D vector\n        let desired_force_torgue_vector = Vector6::new(\n            linear_force.x, linear_force.y, linear_force.z,\n            angular_torgue.x, angular_torgue.y, angular_torgue.z,\n        );\n",
+     "        let linear_force = desired_force_isometry.translation.vector;\n        let angular_torgue = desired_force_isometry.rotation.scaled_axis();\n\n        // Combine into a single 6D vector\n        let mut desired_force_torgue_vector = Vector6::zeros();\n        desired_force_torgue_vector.fixed_rows_mut::<3>(0).copy_from(&linear_force);\n        desired_force_torgue_vector.fixed_rows_mut::<3>(3).copy_from(&angular_torgue);\n",
+     ['C15'], 'wrench vector assembled from two 3-vectors'),
+]
